@@ -93,7 +93,9 @@ def native_state(net, js):
 
 # ------------------------------------------------------------------ operation menu (computed from the actual state, so scripts never leave the valid arguments)
 def menu(net, st, tier, swaps=False):
-    if swaps: return [o for o in swap_menu(net, st) if swaps is True or o[0] in swaps]
+    if swaps:
+        if isinstance(swaps, dict): return [o for o in swap_menu(net, st) if o[0] in swaps['kinds'] and (o[0] != 'swap_path_exchange' or o[3].startswith(swaps.get('provider', '')))]
+        return [o for o in swap_menu(net, st) if swaps is True or o[0] in swaps]
     ops = []; nt = len(net.types)
     acts = list(net.trips) + list(net.maint)
     d0 = [d for d in net.depots if not d['overflow']][0]; ovf = net.depots[-1]
@@ -126,6 +128,12 @@ def menu(net, st, tier, swaps=False):
     for d in D:
         for vt in range(nt): ops.append(('spawn_dummy', d, vt))
     ops += [('improve_depots',), ('reassign_end_depots_greedily',), ('reassign_end_depots_consistent_with_transitions',), ('recompute_transitions_for',)]
+    # transition replacement (what the server does with the optimiser's result): move one vehicle to another cycle and store the result
+    for t, tr in sorted(st['transitions'].items()):
+        for ci, cyc in enumerate(tr['cycles']):
+            for v in cyc:
+                for cj in range(len(tr['cycles'])):
+                    if cj != ci: ops.append(('set_transitions', t, v, cj))
     return ops
 
 def swap_menu(net, st):
@@ -160,6 +168,12 @@ def apply_op(ex, net, s, op):
     if k == 'remove_segment': return ex.call('solution::schedule::modifications::<impl Schedule>::remove_segment', [sref, seg(op[2], op[3]), vval(op[1])])
     if k in ('fit_reassign', 'override_reassign'):
         return ex.call('solution::schedule::modifications::<impl Schedule>::' + k, [sref, seg(op[1], op[2]), vval(op[3]), vval(op[4])])
+    if k == 'set_transitions':
+        trs = F(s, 'Schedule', 'next_period_transitions'); tours = F(s, 'Schedule', 'tours')
+        cur = [c.v for kk, c in trs.entries if conc(kk.fields[0]) == op[1]][0]
+        new = ex.call('Transition::move_vehicle', [Ref(Cell(cur)), vval(op[2]), bv(op[3], 'usize'), Ref(Cell(tours)), Ref(net.arc.fields[0])])
+        m = MapVal([(copy_val(kk), Cell(new if conc(kk.fields[0]) == op[1] else clone_val(c.v))) for kk, c in trs.entries], name='transitions')
+        return ok(ex.call('Schedule::set_next_day_transitions', [sref, m]))
     if k == 'swap_path_exchange':
         sw = NB.S('PathExchange', segment=seg(op[1], op[2]), provider=vval(op[3]), receiver=vval(op[4])); return ex.call('<PathExchange as Swap>::apply', [Ref(Cell(sw)), sref])
     if k == 'swap_spawn_maint':
@@ -189,6 +203,7 @@ def replay_op(net, op, src, dst):
     elif k == 'add_path': o.update(what='add_path_to_vehicle_tour', vehicle=op[1], nodes=[nm(n) for n in op[2]])
     elif k == 'remove_segment': o.update(what='remove_segment', vehicle=op[1], start=nm(op[2]), end=nm(op[3]))
     elif k in ('fit_reassign', 'override_reassign'): o.update(what=k, start=nm(op[1]), end=nm(op[2]), provider=op[3], receiver=op[4])
+    elif k == 'set_transitions': o.update(what='set_transitions_move', vt=op[1], vehicle=op[2], cycle=op[3])
     elif k == 'swap_path_exchange': o.update(what=k, start=nm(op[1]), end=nm(op[2]), provider=op[3], receiver=op[4])
     elif k in ('swap_spawn_maint', 'swap_hitch', 'swap_remove_single'): o.update(what=k, node=nm(op[1]), vehicle=op[2])
     else: o.update(what=k)
@@ -244,9 +259,9 @@ def effects(net, op, before, after, extra_val, ex):
             out.append(('override_reassign: displaced service trips are handed back in a new dummy tour whose id is returned',
                         (not svc and not newd and not got) or (len(newd) == 1 and got and vkey(extra_val.fields[0]) == newd[0] and Aa[newd[0]] == svc)))
         out.append(('reassign: a provider left without activities disappears', (p in A) == bool(Aa.get(p) if p in A else [n for n in Ba[p] if n not in lost_p])))
-    elif k in ('improve_depots', 'reassign_end_depots_greedily', 'reassign_end_depots_consistent_with_transitions', 'recompute_transitions_for'):
+    elif k in ('improve_depots', 'reassign_end_depots_greedily', 'reassign_end_depots_consistent_with_transitions', 'recompute_transitions_for', 'set_transitions'):
         out.append(('depot-only operation changes no activity', Aa == Ba and after['formations'] == before['formations'] and after['vehicles'] == before['vehicles']))
-        if k == 'recompute_transitions_for': out.append(('recompute_transitions changes no tour', A == B))
+        if k in ('recompute_transitions_for', 'set_transitions'): out.append(('recompute/replace transitions changes no tour', A == B))
         touched = set(A) | set(B)
     elif k.startswith('swap_'):
         return []
@@ -480,6 +495,8 @@ DEEP = [
     (0, [('spawn', 0, [4]), ('to_dummy', 'veh_0'), ('spawn_dummy', 'dummy_1', 0), ('reassign_end_depots_greedily',)]),
     (0, [('spawn', 0, [4]), ('spawn', 0, [4]), ('remove_segment', 'veh_0', 4, 4), ('recompute_transitions_for',)]),
     (0, [('spawn', 0, [4, 5]), ('remove_segment', 'veh_0', 4, 4), ('to_dummy', 'veh_0')]),
+    (0, [('spawn', 0, [4]), ('spawn', 0, [7]), ('set_transitions', 0, 'veh_0', 1), ('reassign_end_depots_consistent_with_transitions',)]),
+    (0, [('spawn', 0, [4]), ('spawn', 0, [5]), ('set_transitions', 0, 'veh_1', 0)]),
     (0, [('spawn', 0, [4, 5]), ('remove_segment', 'veh_0', 5, 5), ('spawn', 0, [6]), ('override_reassign', 6, 6, 'veh_2', 'veh_0')]),
 ]
 # two vehicle types (variant 1: depots 0..5, trips 6,7 of type 0, trip 8 of type 1, slot 9): type compatibility across reassignments
@@ -501,6 +518,7 @@ SWAP_BASES = [
     (0, [('spawn', 0, [4]), ('spawn', 0, [7])]),
     (0, [('spawn', 0, [4]), ('to_dummy', 'veh_0'), ('spawn', 0, [5])]),
     (0, [('spawn', 0, [4, 5])]),
+    (0, [('spawn', 0, [4, 5]), ('to_dummy', 'veh_0'), ('spawn', 0, [6])]),       # a dummy tour with two trips as provider
 ]
 SWAP_BASES2 = [
     (0, [('spawn', 0, [4]), ('spawn', 0, [4]), ('spawn', 0, [7])]),
@@ -511,7 +529,7 @@ ALLK = ['swap_spawn_maint', 'swap_path_exchange', 'swap_hitch', 'swap_remove_sin
 NOMAINT = ['swap_path_exchange', 'swap_hitch', 'swap_remove_single']
 def swap_jobs(tier, seed, props):
     js = []
-    if tier == 'quick': plan = [(0, ALLK), (1, NOMAINT), (2, ALLK), (3, NOMAINT)]
+    if tier == 'quick': plan = [(0, ALLK), (1, NOMAINT), (2, ALLK), (3, NOMAINT), (5, dict(kinds=['swap_path_exchange'], provider='dummy'))]
     else: plan = [(k, ALLK) for k in range(len(SWAP_BASES + SWAP_BASES2))]
     bases = SWAP_BASES + SWAP_BASES2
     for k, kinds in plan:
